@@ -468,6 +468,14 @@ def oracle_text(op, obs, ph):
         return 'the 8 address bytes of the entry jump are not the replacement function value'
     if int(kv['stray']) or int(kv['stray_after']):
         return f'{kv["stray"]}/{kv["stray_after"]} byte(s) outside the entry jump (and outside the placeholder body) changed'
+    # the EXTENT of the writes (bytes [13, scr_hi) were scribbled by the probe so an over-long write cannot hide)
+    for k in ('apply_ext', 'unpatch_ext'):
+        if kv[k] != 'none' and int(kv[k].split('..')[1]) > 13:
+            return f'{k}={kv[k]}: the write changed bytes beyond the 13-byte entry jump (scribbled band [13,{kv["scr_hi"]}))'
+    if 'lens=13/13' not in cmp_part:
+        return f'the guard holds {cmp_part.split("lens=")[1].split()[0]} (saved original bytes / jump bytes), wanted 13/13: Unpatch will write beyond the entry jump'
+    if kv['scribble'] != 'true':
+        return f'bytes in [13,{kv["scr_hi"]}) behind the entry jump did not survive Apply/Unpatch'
     if 'restored=true' not in cmp_part:
         return 'Unpatch did not restore the 13 entry bytes'
     if kv['image_applied'] != 'true' or kv['image_after'] != 'true':
@@ -509,7 +517,7 @@ def execute_text(ops, bins, tag='c14.text'):
                 r1, c1 = classify_calls(ph[1], 'nil')
                 r2, c2 = classify_calls(ph[2], 'nil')
                 t = cmp_part.split()
-                impl[i] = f'apply={r1} {t[1]} calls={canon_calls(c1, pbase)} unpatch={r2} {t[3]} calls2={canon_calls(c2, pbase)}'
+                impl[i] = f'apply={r1} {t[1]} calls={canon_calls(c1, pbase)} unpatch={r2} {t[3]} calls2={canon_calls(c2, pbase)} {t[4]}'
             else:
                 impl[i] = cmp_part
         else:
